@@ -22,6 +22,7 @@ var (
 	vLines       []string // the symbolic lines of the listing
 	vYield       int      // lines the scanner delivers before it stops
 	vScanFails   bool     // ... and whether it stops with an error
+	vScanTooLong bool     // ... which is bufio.ErrTooLong (a line above the scanner's limit)
 	vPos         int      // lines delivered so far
 	vLastMarker  int      // index (1-based) of the last function marker delivered, 0 = none
 	vOpenFails   bool
@@ -54,10 +55,17 @@ func vstubScan(s *bufio.Scanner) bool {
 func vstubText(s *bufio.Scanner) string { return vLines[vPos-1] }
 func vstubScanErr(s *bufio.Scanner) error {
 	if vScanFails {
+		if vScanTooLong {
+			// the line after the delivered ones exceeds the scanner's limit: the scan ends there
+			return bufio.ErrTooLong
+		}
 		return errors.New("read error")
 	}
 	return nil
 }
+
+// a larger buffer moves the limit, it does not remove it
+func vstubBuffer(s *bufio.Scanner, buf []byte, max int) {}
 
 // vstubFindSyscallNum summarises findSyscallNum (regular expressions and number
 // parsing are not encoded): the result is an arbitrary number or an error.
@@ -131,7 +139,8 @@ func H_Parse() {
 		vYield = vChoice("yield", L+1)
 	}
 	if f := vParamInt("scanfails"); f >= 0 {
-		vScanFails = f == 1
+		vScanFails = f >= 1
+		vScanTooLong = f == 2
 	} else {
 		vScanFails = vChoice("scan.fails", 2) == 1
 	}
